@@ -184,25 +184,48 @@ Definition adjust_or_insert (s : fim) (key : Z) (h v : N) (src : option (N * N))
 Definition fim_update (s : fim) (key : Z) (h w : N) : fres :=
   if w =? 0 then FDone s [] else adjust_or_insert s key h w None.
 
-(* merge: update with every active entry of the other map, in slot order *)
-Fixpoint merge_loop (osl : list slot) (i : N) (okb : N) (s : fim) (acc : list eff) : fim * list eff * bool * bool :=
-  match osl with
+(* the map iterator: starts at the first active slot, then walks with the odd stride
+   floor(2^lg * 0.6180339887498949) | 1 until num_active_ entries have been produced *)
+Definition iter_stride (lg : N) : N := N.lor (2 ^ lg * 6180339887498949 / 10000000000000000) 1.
+
+Fixpoint first_active (sl : list slot) (i : N) : N :=
+  match sl with [] => i | x :: t => if active x then i else first_active t (i + 1) end.
+
+Fixpoint next_active (fuel : nat) (sl : list slot) (mask stride idx : N) : N :=
+  match fuel with
+  | O => idx
+  | S f => let j := N.land (idx + stride) mask in if active (sget sl j) then j else next_active f sl mask stride j
+  end.
+
+Fixpoint iter_from (cnt : nat) (sl : list slot) (size mask stride idx : N) : list N :=
+  match cnt with
+  | O => []
+  | S c => idx :: (match c with O => [] | _ => iter_from c sl size mask stride (next_active (N.to_nat size) sl mask stride idx) end)
+  end.
+
+Definition iter_order (s : fim) : list N :=
+  iter_from (N.to_nat (f_num s)) (f_slots s) (f_size s) (f_size s - 1) (iter_stride (f_lg_cur s)) (first_active (f_slots s) 0).
+
+(* merge: update with every active entry of the other map, in iterator order *)
+Fixpoint merge_loop (idxs : list N) (osl : list slot) (okb : N) (s : fim) (acc : list eff) : fim * list eff * bool * bool :=
+  match idxs with
   | [] => (s, acc, true, false)
-  | x :: t =>
-    if active x then
-      match adjust_or_insert s (s_key x) (s_hash x) (s_val x) (Some (okb, i)) with
-      | FDone s1 e => merge_loop t (i + 1) okb s1 (acc ++ e)
-      | FThrow => (s, acc, false, false)
-      | FAbort => (s, acc, false, true)
-      end
-    else merge_loop t (i + 1) okb s acc
+  | i :: t =>
+    let x := sget osl i in
+    if negb (active x) then (s, acc, false, true)     (* the iterator only yields active slots: model guard (Abort) *)
+    else
+    match adjust_or_insert s (s_key x) (s_hash x) (s_val x) (Some (okb, i)) with
+    | FDone s1 e => merge_loop t osl okb s1 (acc ++ e)
+    | FThrow => (s, acc, false, false)
+    | FAbort => (s, acc, false, true)
+    end
   end.
 
 Definition fim_merge (s o : fim) : fim * list eff * bool * bool :=
   if f_num o =? 0 then (s, [], true, false) else
   match f_blk o with
   | None => (s, [], false, false)
-  | Some (okb, _, _) => merge_loop (f_slots o) 0 okb s []
+  | Some (okb, _, _) => merge_loop (iter_order o) (f_slots o) okb s []
   end.
 
 Definition fim_copy (o : fim) : option (fim * list eff) :=
